@@ -5,7 +5,7 @@ from common import *
 import abigen, e2e, tablegen
 
 PROP = "C09"
-HEADER = "From Coq Require Import List Arith Bool String.\nImport ListNotations.\nFrom DV Require Import Headers.Model Headers.Cpp gen.Tables Escape.Model.\nLocal Open Scope string_scope."
+HEADER = "From Coq Require Import List Arith Bool String.\nImport ListNotations.\nFrom DV Require Import Headers.Model Headers.Cpp Headers.Guard gen.Tables Escape.Model.\nLocal Open Scope string_scope."
 
 SPECIAL = r'''
 #[diplomat::bridge]
@@ -459,11 +459,36 @@ def check(ctx, replay=None):
     if q.returncode == 0 and p.returncode != 0:
         ctx.violation("macro-param-named-this", {"lib_rs": THIS, "what": "a parameter named `this` is accepted by the tool but the macro expansion binds `this` twice "
                                                  "(its own name for the receiver): rustc E0415", "rustc": p.stderr[-500:]}, True)
+    # 4c. the include guards of every C++ header of the namespaced corpora vs Headers/Guard.v
+    nguards = 0
+    for name in os.listdir(d):
+        if not (name.startswith("out_") and name.endswith("_cpp") and os.path.isdir(os.path.join(d, name))) or "kw" in name or "guard" in name:
+            continue
+        root = os.path.join(d, name)
+        for dp, _, fs in os.walk(root):
+            for f in sorted(fs):
+                if not f.endswith(".hpp") or f == "diplomat_runtime.hpp":
+                    continue
+                rel = os.path.relpath(os.path.join(dp, f), root)
+                m = re.search(r"^#ifndef (\w+)", open(os.path.join(dp, f)).read(), re.M)
+                if not m:
+                    violate("direct:cpp-guard", {"what": f"{rel} of the {name} corpus has no include guard"}); continue
+                decl = rel.endswith(".d.hpp")
+                comps = rel[:-6 if decl else -4].split(os.sep)
+                g = m.group(1)
+                suffix = "_D_HPP" if g.endswith("_D_HPP") else "_HPP"
+                cl = lambda st: clist([str(ord(ch)) for ch in st])
+                goals.append(f"agree_guard {cl(comps[0])} {clist([cl(c) for c in comps[1:]])} {cbool(decl)} {cl(g[:-len(suffix)])} {cbool(suffix == '_D_HPP')}")
+                nguards += 1
     kwstats = keyword_bridge(ctx, d, goals, violate)
+    kwstats["include_guards_compared"] = nguards
     fails = run_shards(PROP, HEADER, goals) if goals else []
     if fails and not ctx.violations and goals[fails[0]].startswith("agree_ident"):
         ctx.violation("corr:escape", {"broken": "correspondence goal " + goals[fails[0]][:400] + " : the parameter name a backend emitted is not the one Escape/Model.v "
                                       "derives from the regenerated keyword table (theorem C09_escaped_is_not_a_keyword)"}, False)
+    elif fails and not ctx.violations and goals[fails[0]].startswith("agree_guard"):
+        ctx.violation("corr:cpp-guard", {"broken": "correspondence goal " + goals[fails[0]][:400] + " : the include guard of a generated C++ header is not the path joined with '_' "
+                                         "(Headers/Guard.v, theorem C09_cpp_guard_injective_on_clean_names)"}, False)
     elif fails and not ctx.violations and goals[fails[0]].startswith("agree_cpp"):
         ctx.violation("corr:cpp-includes", {"broken": "correspondence goal " + goals[fails[0]][:400] + " : the includes / forward declarations of the generated C++ headers are not "
                                             "the ones Headers/Cpp.v derives (theorem C09_cpp_complete_before_body)"}, False)
